@@ -729,7 +729,16 @@ func reviseSeverity(err error) error {
 // buffer. If Run returns a *errors.Error with errors.Fatal severity, the task
 // will be marked in TaskErr, and evaluation will halt.
 func (w *worker) Run(ctx context.Context, req taskRunRequest, reply *taskRunReply) (err error) {
-	var task *Task
+	var (
+		task *Task
+		// running is set once this call has taken it upon itself to run
+		// the task. A call that only waits for another call's run must
+		// not change the task's state: were it to mark the task failed
+		// (e.g. because its own context was canceled), a later call
+		// would run the task a second time, concurrently with the run
+		// that is still in progress.
+		running bool
+	)
 	defer func() {
 		if e := recover(); e != nil {
 			stack := debug.Stack()
@@ -739,12 +748,12 @@ func (w *worker) Run(ctx context.Context, req taskRunRequest, reply *taskRunRepl
 		if err != nil {
 			log.Error.Printf("task %s error: %v", req.Name, err)
 			err = reviseSeverity(err)
-			if task != nil {
+			if task != nil && running {
 				task.Error(errors.Recover(err))
 			}
 			return
 		}
-		if task != nil {
+		if task != nil && running {
 			task.Set(TaskOk)
 		}
 	}()
@@ -791,6 +800,7 @@ func (w *worker) Run(ctx context.Context, req taskRunRequest, reply *taskRunRepl
 		return err
 	}
 	task.state = TaskRunning
+	running = true
 	task.Unlock()
 	// The task's metrics are those of this run only (as in the local
 	// executor): a task that is run again, because its output was lost or
